@@ -242,3 +242,24 @@ Definition exchange_with (whole : option Z) (limit : Z) (x : exchange) : answer 
               a_request_whole := true; a_hits := attempts_of_proxy |}
   end.
 Definition exchange_of_proxy (limit : Z) (x : exchange) : answer := exchange_with whole_deadline_of_proxy limit x.
+
+(* ---- the dial timeout in time: an upstream that cannot be reached ----
+   [dial] above says which status the client gets; what follows also says WHEN.  An upstream either
+   completes the connect after some time or never does (its SYNs are dropped: dead host, firewall,
+   full accept queue) - the connect is then neither accepted nor refused and only the dialer's own
+   Timeout ends it.  transport.NewTransport puts the METHOD VALUE (&net.Dialer{...}).Dial into the
+   transport: net/http calls it once per connection it needs, and the request that waits for that
+   connection fails with the dialer's error (a net.Error with Timeout() = true -> 504).  There is no
+   layer between net/http and the dialer that connects a second time ([dial_attempts_of_proxy]); the
+   generalisation to [attempts] is what the theorems are refuted for when one is put in between.
+   Result: Some (status, time at which the client is answered); None = the dialer never gives up
+   (no limit configured and the upstream unreachable: the operating system's own SYN retry limit,
+   minutes, is outside the model). *)
+Inductive reach := Connects (after : Z) | Unreachable.
+Definition dial_attempts_of_proxy : Z := 1.
+Definition dial_at (attempts limit : Z) (c : reach) (upstream_status : Z) : option (Z * Z) :=
+  let gives_up := Some (error_status ENetTimeout, if limit <? 0 then 0 else Z.max 1 attempts * limit) in
+  match c with
+  | Connects t => if dial_expires limit t then gives_up else Some (upstream_status, t)
+  | Unreachable => if limit =? 0 then None else gives_up
+  end.
